@@ -14,10 +14,10 @@ def run(tier):
     if tier == "quick":
         cfgs, beh = model_behaviours(c, tier, cfgsel=[1, 2, 4, 7, 13, 20, 21, 24, 25])
     else:
-        # three uses per line for two configurations, two uses for the others (the whole family with three uses is
-        # tens of millions of spellings: outside the thorough budget)
-        cfgs, beh = model_behaviours(c, tier, cfgsel=[1, 7], maxuses=3)
-        cfgs2, beh2 = model_behaviours(c, tier, cfgsel=[2, 4, 13, 20, 21, 24, 25], maxuses=2)
+        # three uses per line where the family stays below about a million spellings (measured: 4 -> 2.4 million behaviours,
+        # 21 -> 0.9 million in 8 minutes of TLC), two uses for the others
+        cfgs, beh = model_behaviours(c, tier, cfgsel=[1, 2, 7, 13, 20, 24, 25], maxuses=3)
+        cfgs2, beh2 = model_behaviours(c, tier, cfgsel=[4, 21], maxuses=2)
         beh += beh2
     # R: every spelling of every VALID line of the model through the real handler
     script = os.path.join(c.wd, "replay.ndjson")
